@@ -1,5 +1,3 @@
-import LapyVerif.Model.Scalar
-import LapyVerif.Model.V3
-import LapyVerif.Model.Coo
-import LapyVerif.Model.Mesh
-import LapyVerif.Model.Fem
+-- root of the library: importing the audit modules pulls in every model, lemma, bridge and property file
+import LapyVerif.Audit.C01
+import LapyVerif.Audit.C02
